@@ -185,26 +185,18 @@ pub(crate) fn syscommand_runner(
     schedule_removal_and_despawn_reactors(world);
 
     // run recursive system commands
-    let mut buffered_syscommands = world.resource_mut::<CobwebCommandQueue<BufferedSyscommand>>().remove();
-    buffered_syscommands
-        .retain(
-            |buffered|
-            {
-                // If the buffered command equals the current command, then the current command must be
-                // 'now available'.
-                if buffered.command == command
-                {
-                    tracing::debug!(?command, "running reordered recursive system command");
-                    #[cfg(cobweb_verif)]
-                    crate::verif::emit(crate::verif::Event::Replay{ k: buffered.setup.id });
-                    syscommand_runner(world, buffered.command, buffered.setup, buffered.cleanup);
-                    return false;
-                }
-
-                true
-            }
-        );
-    world.resource_mut::<CobwebCommandQueue<BufferedSyscommand>>().append(buffered_syscommands);
+    // - If a buffered command equals the current command, then the current command must be 'now available'.
+    // - They are taken one at a time, oldest first, and the others stay in the queue: commands deferred while these
+    //   run line up behind the older ones, so every system sees its deferred commands in the order they were deferred
+    //   (which is the order their event metadata is consumed in).
+    while let Some(buffered) = world.resource_mut::<CobwebCommandQueue<BufferedSyscommand>>()
+        .remove_first(|buffered| buffered.command == command)
+    {
+        tracing::debug!(?command, "running reordered recursive system command");
+        #[cfg(cobweb_verif)]
+        crate::verif::emit(crate::verif::Event::Replay{ k: buffered.setup.id });
+        syscommand_runner(world, buffered.command, buffered.setup, buffered.cleanup);
+    }
 
     // final cleanup
     if idx == 0
